@@ -208,7 +208,12 @@ theorem key_functions :
     TaskModel.Gen.HashFields.keyFuncs.lookup "hash.Hash" =
       some ["hashstructure.Hash(‹*ast.Task›, hashstructure.FormatV2, nil)", "fmt.Sprintf(\"%s:%d\", ‹*ast.Task›.Task, ‹uint64›)"] ∧
     TaskModel.Gen.HashFields.keyFuncs.lookup "hash.Name" = some ["fmt.Sprintf(\"%s:%s\", ‹*ast.Task›.Location.Taskfile, ‹*ast.Task›.LocalName())"] ∧
-    TaskModel.Gen.HashFields.keyFuncs.lookup "hash.Empty" = some ["return \"\""] := by decide
+    TaskModel.Gen.HashFields.keyFuncs.lookup "hash.Empty" = some ["return \"\""] ∧
+    -- the local name of `once`: the full name minus the namespace PREFIX and one separator (a prefix, not a
+    -- character set: the key of a task must not depend on the letters of the namespace it was merged under)
+    TaskModel.Gen.HashFields.localName =
+      ["‹string› := ‹*ast.Task›.Task", "‹string› = strings.TrimPrefix(‹string›, ‹*ast.Task›.Namespace)",
+       "‹string› = strings.TrimPrefix(‹string›, \":\")", "return ‹string›"] := by decide
 
 /-- no field of the compiled task or of a command / dependency is silently dropped: every
 field is a value, a walked struct or a `Hashable` (an `opaque` row is a struct whose data
